@@ -351,4 +351,1034 @@ theorem head_not_minus (gs : List Grp) (hwf : ∀ g ∈ gs, g.WF) : splitSign (s
     · rename_i r' heq; simp only [List.cons.injEq] at heq; exact absurd heq.1 this
     · rfl
 
+/-! ## deepening round D: helper lemmas -/
+
+theorem mem_samplesFrom (dt : Int) (hdt : 0 < dt) :
+    ∀ (l : List Int) (t0 : Int) (x : Sample), x ∈ samplesFrom t0 dt l →
+      t0 ≤ x.1 ∧ x.1 < t0 + l.length * dt := by
+  intro l
+  induction l with
+  | nil => intro t0 x hx; simp [samplesFrom] at hx
+  | cons v vs ih =>
+    intro t0 x hx
+    simp only [samplesFrom, List.mem_cons] at hx
+    have e : ((vs.length + 1 : Nat) : Int) * dt = vs.length * dt + dt := by
+      rw [Int.natCast_add, Int.add_mul]; omega
+    have hnn : 0 ≤ (vs.length : Int) * dt := Int.mul_nonneg (by omega) (by omega)
+    rcases hx with hx | hx
+    · subst hx
+      simp only [List.length_cons]
+      rw [e]; omega
+    · have := ih (t0 + dt) x hx
+      simp only [List.length_cons]
+      rw [e]; omega
+
+
+/-! ## deepening round D: the time-string matcher against the regular expression -/
+
+/-- one `number \s* unit` group with the white space in front of it, as the regular expression describes it -/
+structure GG where
+  pre : List Char
+  d1 : List Char
+  dot : Bool
+  d2 : List Char
+  mid : List Char
+  unit : Nat
+
+def dotStr (dot : Bool) : List Char := if dot then ['.'] else []
+def GG.numStr (g : GG) : List Char := g.d1 ++ dotStr g.dot ++ g.d2
+def GG.core (g : GG) : List Char := g.numStr ++ g.mid ++ unitChars g.unit
+def GG.str (g : GG) : List Char := g.pre ++ g.core
+def GG.WF (g : GG) : Prop :=
+  g.pre.all isSpace = true ∧ g.d1.all isDigit = true ∧ g.d2.all isDigit = true ∧ g.d2 ≠ [] ∧
+  g.mid.all isSpace = true ∧ g.unit < 7
+def GG.tok (g : GG) : Tok := ⟨⟨digitsToNat (g.d1 ++ g.d2), if g.dot then g.d2.length else 0⟩, g.unit⟩
+def strsG (gs : List GG) : List Char := gs.flatMap GG.str
+
+theorem space_not_digit (c : Char) (h : isSpace c = true) : isDigit c = false := by
+  cases hd : isDigit c with
+  | false => rfl
+  | true => rw [digit_not_space c hd] at h; cases h
+
+theorem space_not_dot (c : Char) (h : isSpace c = true) : c ≠ '.' := by
+  intro he; subst he; revert h; decide
+
+theorem digit_not_dot (c : Char) (h : isDigit c = true) : c ≠ '.' := by
+  intro he; subst he; revert h; decide
+
+theorem dot_not_space : isSpace '.' = false := by decide
+theorem dot_not_digit : isDigit '.' = false := by decide
+theorem dot_not_unitChar : isUnitChar '.' = false := by decide
+
+/-- what a number starts with -/
+theorem numStr_head (g : GG) (h : g.WF) : ∃ c r, g.numStr = c :: r ∧ (isDigit c = true ∨ c = '.') := by
+  obtain ⟨_, h1, h2, hne, _, _⟩ := h
+  cases hd1 : g.d1 with
+  | cons a b =>
+    refine ⟨a, b ++ (dotStr g.dot ++ g.d2), by simp [GG.numStr, hd1], Or.inl ?_⟩
+    rw [hd1] at h1; simp only [List.all_cons, Bool.and_eq_true] at h1; exact h1.1
+  | nil =>
+    cases hdot : g.dot with
+    | true => exact ⟨'.', g.d2, by simp [GG.numStr, hd1, hdot, dotStr], Or.inr rfl⟩
+    | false =>
+      cases hd2 : g.d2 with
+      | nil => exact absurd hd2 hne
+      | cons a b =>
+        refine ⟨a, b, by simp [GG.numStr, hd1, hdot, dotStr, hd2], Or.inl ?_⟩
+        rw [hd2] at h2; simp only [List.all_cons, Bool.and_eq_true] at h2; exact h2.1
+
+/-- The number lexer reads exactly `\d*\.?\d+` when what follows is neither a digit nor a dot. -/
+theorem lexNumber_gg (g : GG) (h : g.WF) (c : Char) (r : List Char) (hc1 : isDigit c = false) (hc2 : c ≠ '.') :
+    lexNumber (g.numStr ++ c :: r) = some (g.tok.num, c :: r) := by
+  obtain ⟨_, h1, h2, hne, _, _⟩ := h
+  unfold GG.numStr dotStr GG.tok
+  cases hdot : g.dot with
+  | false =>
+    simp only [Bool.false_eq_true, ↓reduceIte, List.append_nil]
+    have hall : (g.d1 ++ g.d2).all isDigit = true := by simp [List.all_append, h1, h2]
+    have ht := takeWhile_append_stop (p := isDigit) (g.d1 ++ g.d2) (c :: r) hall
+      (by intro c' r' hc; simp only [List.cons.injEq] at hc; rw [← hc.1]; exact hc1)
+    unfold lexNumber
+    simp only [ht.1, ht.2]
+    have hne' : (g.d1 ++ g.d2).isEmpty = false := by
+      cases hd2 : g.d2 with
+      | nil => exact absurd hd2 hne
+      | cons a b => cases g.d1 <;> rfl
+    split
+    · rename_i r2 heq
+      simp only [List.cons.injEq] at heq
+      exact absurd heq.1 hc2
+    · simp [hne']
+  | true =>
+    simp only [↓reduceIte]
+    have e : g.d1 ++ ['.'] ++ g.d2 ++ c :: r = g.d1 ++ ('.' :: (g.d2 ++ c :: r)) := by simp
+    rw [e]
+    have ht := takeWhile_append_stop (p := isDigit) g.d1 ('.' :: (g.d2 ++ c :: r)) h1
+      (by intro c' r' hc; simp only [List.cons.injEq] at hc; rw [← hc.1]; exact dot_not_digit)
+    have ht2 := takeWhile_append_stop (p := isDigit) g.d2 (c :: r) h2
+      (by intro c' r' hc; simp only [List.cons.injEq] at hc; rw [← hc.1]; exact hc1)
+    unfold lexNumber
+    simp only [ht.1, ht.2, ht2.1, ht2.2]
+    have hne' : g.d2.isEmpty = false := by
+      cases hd2 : g.d2 with
+      | nil => exact absurd hd2 hne
+      | cons a b => rfl
+    simp [hne']
+
+theorem all_takeWhile' (p : Char → Bool) (l : List Char) : (l.takeWhile p).all p = true := by
+  induction l with
+  | nil => rfl
+  | cons x xs ih =>
+    simp only [List.takeWhile_cons]
+    cases hx : p x <;> simp [hx, ih]
+
+theorem dropWhile_head_not (p : Char → Bool) (l : List Char) (c : Char) (r : List Char)
+    (h : l.dropWhile p = c :: r) : p c = false := by
+  induction l with
+  | nil => simp at h
+  | cons x xs ih =>
+    simp only [List.dropWhile_cons] at h
+    cases hx : p x with
+    | true => rw [hx] at h; exact ih h
+    | false =>
+      rw [hx] at h; simp only [Bool.false_eq_true, ↓reduceIte, List.cons.injEq] at h
+      rw [← h.1]; exact hx
+
+/-- Whatever the number lexer accepts has the shape `\d*\.?\d+`. -/
+theorem lexNumber_sound (cs : List Char) (n : Dec) (r : List Char) (h : lexNumber cs = some (n, r)) :
+    ∃ d1 dot d2, d1.all isDigit = true ∧ d2.all isDigit = true ∧ d2 ≠ [] ∧
+      cs = d1 ++ dotStr dot ++ d2 ++ r ∧ n = ⟨digitsToNat (d1 ++ d2), if dot then d2.length else 0⟩ := by
+  simp only [lexNumber] at h
+  have hsplit := List.takeWhile_append_dropWhile (p := isDigit) (l := cs)
+  split at h
+  · rename_i r2 heq
+    split at h
+    · cases h
+    · rename_i hne
+      simp only [Option.some.injEq, Prod.mk.injEq] at h
+      refine ⟨cs.takeWhile isDigit, true, r2.takeWhile isDigit, all_takeWhile' _ _, all_takeWhile' _ _, ?_, ?_, h.1.symm⟩
+      · intro he; rw [he] at hne; simp at hne
+      · have h2 := List.takeWhile_append_dropWhile (p := isDigit) (l := r2)
+        rw [← h.2]
+        simp only [dotStr, ↓reduceIte]
+        rw [List.append_assoc, List.append_assoc, h2]
+        simp only [List.cons_append, List.nil_append]
+        rw [← heq, hsplit]
+  · split at h
+    · cases h
+    · rename_i hne
+      simp only [Option.some.injEq, Prod.mk.injEq] at h
+      refine ⟨[], false, cs.takeWhile isDigit, rfl, all_takeWhile' _ _, ?_, ?_, ?_⟩
+      · intro he; rw [he] at hne; simp at hne
+      · rw [← h.2]; simp [dotStr, hsplit]
+      · rw [← h.1]; simp
+
+
+theorem dropWhile_nil_of_all (p : Char → Bool) (l : List Char) (h : l.all p = true) : l.dropWhile p = [] := by
+  induction l with
+  | nil => rfl
+  | cons x xs ih =>
+    simp only [List.all_cons, Bool.and_eq_true] at h
+    simp [List.dropWhile_cons, h.1, ih h.2]
+
+theorem all_of_dropWhile_nil (p : Char → Bool) (l : List Char) (h : l.dropWhile p = []) : l.all p = true := by
+  induction l with
+  | nil => rfl
+  | cons x xs ih =>
+    simp only [List.dropWhile_cons] at h
+    cases hx : p x with
+    | true => rw [hx] at h; simp [hx, ih h]
+    | false => rw [hx] at h; simp at h
+
+theorem unitIndex_sound (u : List Char) (i : Nat) (h : unitIndex? (String.ofList u) = some i) :
+    i < 7 ∧ u = unitChars i := by
+  unfold unitIndex? at h
+  rw [List.findIdx?_eq_some_iff_getElem] at h
+  obtain ⟨hi, hp, _⟩ := h
+  have hi7 : i < 7 := hi
+  refine ⟨hi7, ?_⟩
+  have he : units[i].1 = String.ofList u := eq_of_beq hp
+  unfold unitChars
+  rw [List.getElem?_eq_getElem hi]
+  simp only [Option.map_some, Option.getD_some]
+  have h2 := congrArg String.toList he
+  rw [String.toList_ofList] at h2
+  exact h2.symm
+
+/-- what may follow a unit: nothing, white space, or the next number -/
+theorem strsG_head (gs : List GG) (post : List Char) (hwf : ∀ g ∈ gs, g.WF) (hp : post.all isSpace = true)
+    (c : Char) (r : List Char) (h : strsG gs ++ post = c :: r) : isUnitChar c = false := by
+  cases gs with
+  | nil =>
+    simp only [strsG, List.flatMap_nil, List.nil_append] at h
+    rw [h] at hp; simp only [List.all_cons, Bool.and_eq_true] at hp
+    exact space_not_unitChar c hp.1
+  | cons g gs =>
+    have hg := hwf g (by simp)
+    obtain ⟨c0, r0, hn, hc0⟩ := numStr_head g hg
+    simp only [strsG, List.flatMap_cons, GG.str, GG.core, List.append_assoc] at h
+    cases hpre : g.pre with
+    | cons x xs =>
+      rw [hpre] at h; simp only [List.cons_append, List.cons.injEq] at h
+      have := hg.1; rw [hpre] at this; simp only [List.all_cons, Bool.and_eq_true] at this
+      rw [← h.1]; exact space_not_unitChar x this.1
+    | nil =>
+      rw [hpre, hn] at h; simp only [List.nil_append, List.cons_append, List.cons.injEq] at h
+      rw [← h.1]
+      rcases hc0 with hc0 | hc0
+      · exact digit_not_unitChar c0 hc0
+      · rw [hc0]; exact dot_not_unitChar
+
+theorem lexToks_complete (gs : List GG) (post : List Char) (hwf : ∀ g ∈ gs, g.WF) (hp : post.all isSpace = true)
+    (fuel : Nat) (hf : gs.length < fuel) :
+    lexToks fuel (strsG gs ++ post) = some (gs.map GG.tok, !post.isEmpty) := by
+  induction gs generalizing fuel with
+  | nil =>
+    cases fuel with
+    | zero => omega
+    | succ f =>
+      have hd : post.dropWhile isSpace = [] := dropWhile_nil_of_all _ _ hp
+      simp [strsG, lexToks, hd]
+  | cons g gs ih =>
+    cases fuel with
+    | zero => omega
+    | succ f =>
+      have hg := hwf g (by simp)
+      have hwf' : ∀ g ∈ gs, g.WF := fun x hx => hwf x (by simp [hx])
+      obtain ⟨c0, r0, hn, hc0⟩ := numStr_head g hg
+      obtain ⟨hpre, _, _, _, hmid, hu⟩ := hg
+      obtain ⟨u0, us, hu0⟩ : ∃ u0 us, unitChars g.unit = u0 :: us := by
+        cases h : unitChars g.unit with
+        | nil => exact absurd h (unit_facts g.unit hu).1
+        | cons a b => exact ⟨a, b, rfl⟩
+      obtain ⟨hu0d, hu0s, hu0p⟩ := unit_head g.unit hu u0 us hu0
+      -- the text after the number: `mid ++ unit ++ rest`, starting with a blank or the unit's first letter
+      obtain ⟨m0, mr, hm, hm0d, hm0p⟩ : ∃ m0 mr, g.mid ++ (unitChars g.unit ++ (strsG gs ++ post)) = m0 :: mr ∧
+          isDigit m0 = false ∧ m0 ≠ '.' := by
+        cases hmid' : g.mid with
+        | nil => exact ⟨u0, us ++ (strsG gs ++ post), by simp [hu0], hu0d, hu0p⟩
+        | cons a b =>
+          have := hmid; rw [hmid'] at this; simp only [List.all_cons, Bool.and_eq_true] at this
+          exact ⟨a, b ++ (unitChars g.unit ++ (strsG gs ++ post)), by simp, space_not_digit a this.1, space_not_dot a this.1⟩
+      have hcs : strsG (g :: gs) ++ post =
+          g.pre ++ (g.numStr ++ (g.mid ++ (unitChars g.unit ++ (strsG gs ++ post)))) := by
+        simp [strsG, GG.str, GG.core, List.append_assoc]
+      have h1 := takeWhile_append_stop (p := isSpace) g.pre
+        (g.numStr ++ (g.mid ++ (unitChars g.unit ++ (strsG gs ++ post)))) hpre
+        (by intro c r' hc; rw [hn] at hc; simp only [List.cons_append, List.cons.injEq] at hc
+            rw [← hc.1]
+            rcases hc0 with hc0 | hc0
+            · exact digit_not_space c0 hc0
+            · rw [hc0]; exact dot_not_space)
+      have hnum : lexNumber (g.numStr ++ (g.mid ++ (unitChars g.unit ++ (strsG gs ++ post)))) =
+          some (g.tok.num, g.mid ++ (unitChars g.unit ++ (strsG gs ++ post))) := by
+        rw [hm]; exact lexNumber_gg g (hwf g (by simp)) m0 mr hm0d hm0p
+      have h2 := takeWhile_append_stop (p := isSpace) g.mid (unitChars g.unit ++ (strsG gs ++ post)) hmid
+        (by intro c r' hc; rw [hu0] at hc; simp only [List.cons_append, List.cons.injEq] at hc
+            rw [← hc.1]; exact hu0s)
+      have h3 := takeWhile_append_stop (p := isUnitChar) (unitChars g.unit) (strsG gs ++ post)
+        (unit_facts g.unit hu).2.1
+        (by intro c r' hc; exact strsG_head gs post hwf' hp c r' hc)
+      have hrest_ne : (g.numStr ++ (g.mid ++ (unitChars g.unit ++ (strsG gs ++ post)))).isEmpty = false := by
+        rw [hn]; rfl
+      rw [hcs]
+      unfold lexToks
+      simp only [h1.2, hrest_ne, Bool.false_eq_true, ↓reduceIte, hnum, h2.2, h3.1, h3.2,
+        (unit_facts g.unit hu).2.2.2]
+      rw [ih hwf' f (by simp at hf; omega)]
+      simp [GG.tok]
+
+theorem lexToks_sound (fuel : Nat) (cs : List Char) (toks : List Tok) (trail : Bool)
+    (h : lexToks fuel cs = some (toks, trail)) :
+    ∃ gs post, (∀ g ∈ gs, g.WF) ∧ post.all isSpace = true ∧ cs = strsG gs ++ post ∧
+      toks = gs.map GG.tok ∧ trail = !post.isEmpty := by
+  induction fuel generalizing cs toks trail with
+  | zero =>
+    unfold lexToks at h
+    split at h
+    · rename_i he
+      simp only [Option.some.injEq, Prod.mk.injEq] at h
+      refine ⟨[], [], by simp, rfl, ?_, h.1.symm, h.2.symm⟩
+      simpa [strsG] using he
+    · cases h
+  | succ f ih =>
+    simp only [lexToks] at h
+    have hsp := List.takeWhile_append_dropWhile (p := isSpace) (l := cs)
+    split at h
+    · rename_i he
+      simp only [Option.some.injEq, Prod.mk.injEq] at h
+      have hall : cs.all isSpace = true := all_of_dropWhile_nil _ _ (by simpa using he)
+      exact ⟨[], cs, by simp, hall, by simp [strsG], h.1.symm, h.2.symm⟩
+    · split at h
+      · cases h
+      · rename_i n r1 hnum
+        split at h
+        · cases h
+        · rename_i ui hui
+          split at h
+          · cases h
+          · rename_i ts tr hrec
+            simp only [Option.some.injEq, Prod.mk.injEq] at h
+            obtain ⟨gs, post, hwf, hp, hcs, hts, htr⟩ := ih _ _ _ hrec
+            obtain ⟨d1, dot, d2, hd1, hd2, hne, hrest, hn⟩ := lexNumber_sound _ _ _ hnum
+            obtain ⟨hu7, huc⟩ := unitIndex_sound _ _ hui
+            have hm := List.takeWhile_append_dropWhile (p := isSpace) (l := r1)
+            have hu := List.takeWhile_append_dropWhile (p := isUnitChar) (l := r1.dropWhile isSpace)
+            refine ⟨⟨cs.takeWhile isSpace, d1, dot, d2, r1.takeWhile isSpace, ui⟩ :: gs, post, ?_, hp, ?_, ?_, ?_⟩
+            · intro g hg
+              rcases List.mem_cons.mp hg with hg | hg
+              · subst hg
+                exact ⟨all_takeWhile' _ _, hd1, hd2, hne, all_takeWhile' _ _, hu7⟩
+              · exact hwf g hg
+            · simp only [strsG, List.flatMap_cons, GG.str, GG.core, GG.numStr]
+              rw [← huc]
+              have : strsG gs = gs.flatMap GG.str := rfl
+              rw [← this, List.append_assoc, List.append_assoc, List.append_assoc, ← hcs, hu]
+              rw [List.append_assoc, hm, ← hrest, hsp]
+            · rw [← h.1, hts]; simp [GG.tok, hn]
+            · rw [← h.2, htr]
+
+
+/-! ### The regular expression, read as a specification -/
+
+/-- `(?P<u>\d*\.?\d+)\s*u` for the unit number `i`, with the token it captures. -/
+inductive GroupMatch (i : Nat) : List Char → Tok → Prop
+  | mk (d1 d2 mid : List Char) (dot : Bool) :
+      d1.all isDigit = true → d2.all isDigit = true → d2 ≠ [] → mid.all isSpace = true →
+      GroupMatch i (d1 ++ dotStr dot ++ d2 ++ mid ++ unitChars i)
+        ⟨⟨digitsToNat (d1 ++ d2), if dot then d2.length else 0⟩, i⟩
+
+/-- `(\s*(G_i)?)(\s*(G_{i+1})?)…(\s*(G_ns)?)`: the optional groups of the units `i … 6`, each preceded by `\s*`. -/
+inductive TailMatch : Nat → List Char → List Tok → Prop
+  | done : TailMatch 7 [] []
+  | absent (i : Nat) (ws rest : List Char) (toks : List Tok) :
+      i < 7 → ws.all isSpace = true → TailMatch (i + 1) rest toks → TailMatch i (ws ++ rest) toks
+  | present (i : Nat) (ws g rest : List Char) (tok : Tok) (toks : List Tok) :
+      i < 7 → ws.all isSpace = true → GroupMatch i g tok → TailMatch (i + 1) rest toks →
+      TailMatch i (ws ++ g ++ rest) (tok :: toks)
+
+/-- The part of the pattern after the sign: `(G_d)?` followed by `\s*(G_h)? … \s*(G_ns)?`. -/
+inductive BodyMatch : List Char → List Tok → Prop
+  | absent (rest : List Char) (toks : List Tok) : TailMatch 1 rest toks → BodyMatch rest toks
+  | present (g rest : List Char) (tok : Tok) (toks : List Tok) :
+      GroupMatch 0 g tok → TailMatch 1 rest toks → BodyMatch (g ++ rest) (tok :: toks)
+
+/-- canonical form of a tail: groups with strictly increasing units `≥ i`; trailing white space needs a free
+    `\s*` slot (none is left after an `ns` group) -/
+def CanonTail : Nat → List GG → List Char → Prop
+  | i, [], post => post.all isSpace = true ∧ (post = [] ∨ i < 7) ∧ i ≤ 7
+  | i, g :: gs, post => g.WF ∧ i ≤ g.unit ∧ CanonTail (g.unit + 1) gs post
+
+theorem GG.groupMatch (g : GG) (h : g.WF) : GroupMatch g.unit g.core g.tok := by
+  obtain ⟨_, h1, h2, hne, hm, _⟩ := h
+  exact GroupMatch.mk g.d1 g.d2 g.mid g.dot h1 h2 hne hm
+
+theorem tail_of_canon : ∀ (k i : Nat), i + k = 7 → ∀ (gs : List GG) (post : List Char),
+    CanonTail i gs post → TailMatch i (strsG gs ++ post) (gs.map GG.tok) := by
+  intro k
+  induction k with
+  | zero =>
+    intro i hi gs post hc
+    have hi7 : i = 7 := by omega
+    subst hi7
+    cases gs with
+    | nil =>
+      obtain ⟨_, h2, _⟩ := hc
+      rcases h2 with h2 | h2
+      · subst h2; exact TailMatch.done
+      · omega
+    | cons g gs =>
+      obtain ⟨hwf, h2, _⟩ := hc
+      have := hwf.2.2.2.2.2
+      omega
+  | succ k ih =>
+    intro i hi gs post hc
+    have hi7 : i < 7 := by omega
+    cases gs with
+    | nil =>
+      obtain ⟨h1, _, _⟩ := hc
+      have hrest := ih (i + 1) (by omega) [] [] ⟨rfl, Or.inl rfl, by omega⟩
+      have := TailMatch.absent i post [] [] hi7 h1 hrest
+      simpa [strsG] using this
+    | cons g gs =>
+      obtain ⟨hwf, h2, h3⟩ := hc
+      by_cases hu : g.unit = i
+      · have hrest := ih (i + 1) (by omega) gs post (by rw [← hu]; exact h3)
+        have hg := GG.groupMatch g hwf
+        rw [hu] at hg
+        have := TailMatch.present i g.pre g.core (strsG gs ++ post) g.tok (gs.map GG.tok) hi7 hwf.1 hg hrest
+        simpa [strsG, GG.str, List.append_assoc] using this
+      · have hrest := ih (i + 1) (by omega) (g :: gs) post ⟨hwf, by omega, h3⟩
+        have := TailMatch.absent i [] _ _ hi7 rfl hrest
+        simpa using this
+
+theorem canon_of_tail (i : Nat) (cs : List Char) (toks : List Tok) (h : TailMatch i cs toks) :
+    ∃ gs post, cs = strsG gs ++ post ∧ CanonTail i gs post ∧ toks = gs.map GG.tok := by
+  induction h with
+  | done => exact ⟨[], [], rfl, ⟨rfl, Or.inl rfl, by omega⟩, rfl⟩
+  | absent i ws rest toks hi hws _ ih =>
+    obtain ⟨gs, post, hcs, hc, ht⟩ := ih
+    cases gs with
+    | nil =>
+      obtain ⟨h1, _, _⟩ := hc
+      refine ⟨[], ws ++ post, by simp [strsG, hcs], ⟨?_, Or.inr hi, by omega⟩, ht⟩
+      simp [List.all_append, hws, h1]
+    | cons g gs =>
+      obtain ⟨hwf, h2, h3⟩ := hc
+      obtain ⟨w1, w2, w3, w4, w5, w6⟩ := hwf
+      refine ⟨⟨ws ++ g.pre, g.d1, g.dot, g.d2, g.mid, g.unit⟩ :: gs, post, ?_, ⟨⟨?_, w2, w3, w4, w5, w6⟩, by simp; omega, h3⟩, ?_⟩
+      · simp [hcs, strsG, GG.str, GG.core, GG.numStr, List.append_assoc]
+      · simp [List.all_append, hws, w1]
+      · simp [ht, GG.tok]
+  | present i ws g rest tok toks hi hws hg _ ih =>
+    obtain ⟨gs, post, hcs, hc, ht⟩ := ih
+    cases hg with
+    | mk d1 d2 mid dot h1 h2 hne hm =>
+      refine ⟨⟨ws, d1, dot, d2, mid, i⟩ :: gs, post, ?_, ⟨⟨hws, h1, h2, hne, hm, hi⟩, Nat.le_refl _, hc⟩, ?_⟩
+      · simp [hcs, strsG, GG.str, GG.core, GG.numStr, List.append_assoc]
+      · simp [ht, GG.tok]
+
+theorem canonTail_le (i j : Nat) (hji : j ≤ i) (gs : List GG) (post : List Char) (h : CanonTail i gs post) :
+    CanonTail j gs post := by
+  cases gs with
+  | nil =>
+    obtain ⟨h1, h2, h3⟩ := h
+    exact ⟨h1, h2.imp id (fun h => by omega), by omega⟩
+  | cons g gs =>
+    obtain ⟨h1, h2, h3⟩ := h
+    exact ⟨h1, by omega, h3⟩
+
+/-- canonical form of the whole body: nothing may precede a `d` group -/
+def CanonTop (gs : List GG) (post : List Char) : Prop :=
+  CanonTail 0 gs post ∧ ∀ g, gs.head? = some g → g.unit = 0 → g.pre = []
+
+theorem body_of_canon (gs : List GG) (post : List Char) (h : CanonTop gs post) :
+    BodyMatch (strsG gs ++ post) (gs.map GG.tok) := by
+  obtain ⟨hc, hh⟩ := h
+  cases gs with
+  | nil =>
+    obtain ⟨h1, _, _⟩ := hc
+    exact BodyMatch.absent _ _ (tail_of_canon 6 1 rfl [] post ⟨h1, Or.inr (by omega), by omega⟩)
+  | cons g gs =>
+    obtain ⟨hwf, _, h3⟩ := hc
+    by_cases hu : g.unit = 0
+    · have hpre := hh g rfl hu
+      have ht := tail_of_canon 6 1 rfl gs post (by rw [hu] at h3; exact h3)
+      have hg := GG.groupMatch g hwf
+      rw [hu] at hg
+      have := BodyMatch.present g.core (strsG gs ++ post) g.tok (gs.map GG.tok) hg ht
+      simpa [strsG, GG.str, hpre, List.append_assoc] using this
+    · exact BodyMatch.absent _ _ (tail_of_canon 6 1 rfl (g :: gs) post ⟨hwf, by omega, h3⟩)
+
+theorem canon_of_body (cs : List Char) (toks : List Tok) (h : BodyMatch cs toks) :
+    ∃ gs post, cs = strsG gs ++ post ∧ CanonTop gs post ∧ toks = gs.map GG.tok := by
+  cases h with
+  | absent rest toks ht =>
+    obtain ⟨gs, post, hcs, hc, htk⟩ := canon_of_tail 1 _ _ ht
+    refine ⟨gs, post, hcs, ⟨canonTail_le 1 0 (by omega) gs post hc, ?_⟩, htk⟩
+    intro g hg hu
+    cases gs with
+    | nil => simp at hg
+    | cons g' gs' =>
+      simp only [List.head?_cons, Option.some.injEq] at hg; subst hg
+      have := hc.2.1; omega
+  | present g rest tok toks hg ht =>
+    obtain ⟨gs, post, hcs, hc, htk⟩ := canon_of_tail 1 _ _ ht
+    cases hg with
+    | mk d1 d2 mid dot h1 h2 hne hm =>
+      refine ⟨⟨[], d1, dot, d2, mid, 0⟩ :: gs, post, ?_, ⟨⟨⟨rfl, h1, h2, hne, hm, by show (0 : Nat) < 7; omega⟩, Nat.le_refl _, hc⟩, ?_⟩, ?_⟩
+      · simp [hcs, strsG, GG.str, GG.core, GG.numStr, List.append_assoc]
+      · intro g hg _
+        simp only [List.head?_cons, Option.some.injEq] at hg; subst hg; rfl
+      · simp [htk, GG.tok]
+
+
+theorem canonTail_iff (gs : List GG) (post : List Char) (hwf : ∀ g ∈ gs, g.WF) (hp : post.all isSpace = true) :
+    ∀ i, i ≤ 7 → (CanonTail i gs post ↔
+      (∀ g, gs.head? = some g → i ≤ g.unit) ∧ strictlyIncreasing (gs.map (·.unit)) = true ∧
+      (∀ g, gs.getLast? = some g → post = [] ∨ g.unit < 6) ∧ (gs = [] → post = [] ∨ i < 7)) := by
+  induction gs with
+  | nil =>
+    intro i hi
+    simp [CanonTail, hp, hi, strictlyIncreasing]
+  | cons g gs ih =>
+    intro i hi
+    have hg := hwf g (by simp)
+    have hu : g.unit < 7 := hg.2.2.2.2.2
+    have ih' := ih (fun x hx => hwf x (by simp [hx])) (g.unit + 1) (by omega)
+    simp only [CanonTail, ih', hg, true_and]
+    cases gs with
+    | nil =>
+      simp [strictlyIncreasing]
+      intro _
+      constructor <;> (intro h; exact h.imp id (fun h => by omega))
+    | cons h t =>
+      simp only [List.head?_cons, Option.some.injEq, forall_eq', List.map_cons, strictlyIncreasing,
+        Bool.and_eq_true, decide_eq_true_eq, List.getLast?_cons_cons, reduceCtorEq, false_imp_iff, and_true]
+      constructor
+      · rintro ⟨h1, h2, h3, h4⟩; exact ⟨h1, ⟨by omega, h3⟩, h4⟩
+      · rintro ⟨h1, ⟨h2, h3⟩, h4⟩; exact ⟨h1, by omega, h3, h4⟩
+
+/-- the three checks `matchBody` makes, on the groups -/
+def checksG (gs : List GG) (leading trailing : Bool) : Bool :=
+  strictlyIncreasing (gs.map (·.unit)) &&
+  (match gs.head? with | some g => !(leading && decide (g.unit = 0)) | none => true) &&
+  (match gs.getLast? with | some g => !(trailing && decide (g.unit = 6)) | none => true)
+
+def leadingOf (cs : List Char) : Bool := match cs with | c :: _ => isSpace c | [] => false
+
+theorem leading_eq (g : GG) (hg : g.WF) (rest : List Char) :
+    leadingOf (g.str ++ rest) = !g.pre.isEmpty := by
+  unfold leadingOf
+  obtain ⟨c0, r0, hn, hc0⟩ := numStr_head g hg
+  cases hpre : g.pre with
+  | cons x xs =>
+    have := hg.1; rw [hpre] at this; simp only [List.all_cons, Bool.and_eq_true] at this
+    simp [GG.str, hpre, this.1]
+  | nil =>
+    simp only [GG.str, hpre, GG.core, hn, List.nil_append, List.cons_append, List.isEmpty_nil, Bool.not_true]
+    rcases hc0 with h | h
+    · exact digit_not_space c0 h
+    · rw [h]; exact dot_not_space
+
+theorem checksG_iff (gs : List GG) (post : List Char) (hwf : ∀ g ∈ gs, g.WF) (hp : post.all isSpace = true)
+    (leading : Bool) (hl : ∀ g, gs.head? = some g → leading = !g.pre.isEmpty) :
+    checksG gs leading (!post.isEmpty) = true ↔ CanonTop gs post := by
+  unfold CanonTop
+  rw [canonTail_iff gs post hwf hp 0 (by omega)]
+  unfold checksG
+  cases gs with
+  | nil => simp [strictlyIncreasing]
+  | cons g gs =>
+    have hl' := hl g rfl
+    simp only [List.head?_cons, Option.some.injEq, forall_eq', Nat.zero_le, true_and, Bool.and_eq_true,
+      reduceCtorEq, false_imp_iff, and_true]
+    cases hlast : (g :: gs).getLast? with
+    | none => simp at hlast
+    | some l =>
+      simp only [Bool.not_eq_true', Bool.and_eq_false_iff, decide_eq_false_iff_not, Option.some.injEq, forall_eq']
+      have hlu : l.unit < 7 := (hwf l (List.mem_of_getLast? hlast)).2.2.2.2.2
+      rw [hl']
+      constructor
+      · rintro ⟨⟨h1, h2⟩, h3⟩
+        refine ⟨⟨h1, ?_⟩, ?_⟩
+        · rcases h3 with h3 | h3
+          · left; simpa using h3
+          · right; omega
+        · intro hu
+          rcases h2 with h2 | h2
+          · simpa using h2
+          · exact absurd hu h2
+      · rintro ⟨⟨h1, h2⟩, h3⟩
+        refine ⟨⟨h1, ?_⟩, ?_⟩
+        · by_cases hu : g.unit = 0
+          · left; simp [h3 hu]
+          · right; exact hu
+        · rcases h2 with h2 | h2
+          · left; simp [h2]
+          · right; omega
+
+theorem length_le_strsG (gs : List GG) (hwf : ∀ g ∈ gs, g.WF) : gs.length ≤ (strsG gs).length := by
+  induction gs with
+  | nil => simp
+  | cons g gs ih =>
+    have hg := hwf g (by simp)
+    have : 1 ≤ g.d2.length := by
+      cases h : g.d2 with
+      | nil => exact absurd h hg.2.2.2.1
+      | cons a b => simp
+    have := ih (fun x hx => hwf x (by simp [hx]))
+    simp only [strsG, List.flatMap_cons, GG.str, GG.core, GG.numStr, List.length_append, List.length_cons] at *
+    omega
+
+theorem canonTail_wf (i : Nat) (gs : List GG) (post : List Char) (h : CanonTail i gs post) :
+    (∀ g ∈ gs, g.WF) ∧ post.all isSpace = true := by
+  induction gs generalizing i with
+  | nil => exact ⟨by simp, h.1⟩
+  | cons g gs ih =>
+    obtain ⟨h1, _, h3⟩ := h
+    have := ih _ h3
+    exact ⟨by intro x hx; rcases List.mem_cons.mp hx with hx | hx; · subst hx; exact h1
+              · exact this.1 x hx, this.2⟩
+
+theorem ite_some_eq {α} {c : Prop} [Decidable c] {a b : α} (h : (if c then some a else none) = some b) :
+    c ∧ a = b := by
+  by_cases hc : c
+  · rw [if_pos hc] at h; exact ⟨hc, by injection h⟩
+  · rw [if_neg hc] at h; cases h
+
+/-- the three checks `matchBody` makes after tokenising -/
+def checksT (toks : List Tok) (leading trailing : Bool) : Bool :=
+  strictlyIncreasing (toks.map (·.unit)) &&
+  (match toks.head? with | some t => !(leading && decide (t.unit = 0)) | none => true) &&
+  (match toks.getLast? with | some t => !(trailing && decide (t.unit = 6)) | none => true)
+
+theorem matchBody_unfold (cs : List Char) :
+    matchBody cs = match lexToks (cs.length + 1) cs with
+      | none => none
+      | some (toks, tr) => if checksT toks (leadingOf cs) tr then some toks else none := by
+  unfold matchBody
+  cases lexToks (cs.length + 1) cs with
+  | none => rfl
+  | some p => rfl
+
+theorem checksT_map (gs : List GG) (lead trail : Bool) :
+    checksT (gs.map GG.tok) lead trail = checksG gs lead trail := by
+  unfold checksT checksG
+  have e : ((fun x : Tok => x.unit) ∘ GG.tok) = fun g : GG => g.unit := by funext g; rfl
+  rw [List.map_map, List.head?_map, List.getLast?_map, e]
+  cases gs.head? <;> cases gs.getLast? <;> rfl
+
+theorem matchBody_eq (gs : List GG) (post : List Char) (hwf : ∀ g ∈ gs, g.WF) (hp : post.all isSpace = true) :
+    matchBody (strsG gs ++ post) =
+      if checksG gs (leadingOf (strsG gs ++ post)) (!post.isEmpty) then some (gs.map GG.tok) else none := by
+  rw [matchBody_unfold,
+    lexToks_complete gs post hwf hp _ (by have := length_le_strsG gs hwf; simp only [List.length_append]; omega)]
+  simp only [checksT_map]
+
+
+
+/-! ## deepening round D: order of the samples, trailing newline, textbook regular expressions -/
+
+theorem samplesFrom_sorted (dt : Int) (hdt : 0 < dt) (l : List Int) (t0 : Int) :
+    (samplesFrom t0 dt l).Pairwise (fun x y => x.1 ≤ y.1) := by
+  induction l generalizing t0 with
+  | nil => exact List.Pairwise.nil
+  | cons v vs ih =>
+    simp only [samplesFrom, List.pairwise_cons]
+    refine ⟨?_, ih (t0 + dt)⟩
+    intro y hy
+    have := (mem_samplesFrom dt hdt vs (t0 + dt) y hy).1
+    show t0 ≤ y.1
+    omega
+
+
+theorem unit_last_not_nl (i : Nat) (h : i < 7) : (unitChars i).getLast? ≠ some '\n' ∧ unitChars i ≠ [] := by
+  match i, h with
+  | 0, _ | 1, _ | 2, _ | 3, _ | 4, _ | 5, _ | 6, _ => decide
+
+theorem getLast?_append_ne_nil (a b : List Char) (hb : b ≠ []) : (a ++ b).getLast? = b.getLast? := by
+  cases b with
+  | nil => exact absurd rfl hb
+  | cons x xs =>
+    rw [List.getLast?_append]
+    cases h : (x :: xs).getLast? with
+    | none => simp at h
+    | some y => rfl
+
+theorem strsG_last_not_nl (gs : List GG) (hwf : ∀ g ∈ gs, g.WF) (hne : gs ≠ []) :
+    (strsG gs).getLast? ≠ some '\n' ∧ strsG gs ≠ [] := by
+  induction gs with
+  | nil => exact absurd rfl hne
+  | cons g gs ih =>
+    have hg := hwf g (by simp)
+    have hu := unit_last_not_nl g.unit hg.2.2.2.2.2
+    by_cases hgs : gs = []
+    · subst hgs
+      have e : strsG [g] = (g.pre ++ (g.numStr ++ g.mid)) ++ unitChars g.unit := by
+        simp [strsG, GG.str, GG.core, List.append_assoc]
+      rw [e]
+      refine ⟨by rw [getLast?_append_ne_nil _ _ hu.2]; exact hu.1, ?_⟩
+      intro h; exact hu.2 (List.append_eq_nil_iff.mp h).2
+    · have := ih (fun x hx => hwf x (by simp [hx])) hgs
+      have e : strsG (g :: gs) = g.str ++ strsG gs := by simp [strsG]
+      rw [e]
+      refine ⟨by rw [getLast?_append_ne_nil _ _ this.2]; exact this.1, ?_⟩
+      intro h; exact this.2 (List.append_eq_nil_iff.mp h).2
+
+theorem canonTail_dropLast (i : Nat) (gs : List GG) (p : List Char) (c : Char) (h : CanonTail i gs (p ++ [c])) :
+    CanonTail i gs p := by
+  induction gs generalizing i with
+  | nil =>
+    obtain ⟨h1, h2, h3⟩ := h
+    refine ⟨?_, Or.inr ?_, h3⟩
+    · rw [List.all_append] at h1; simp only [Bool.and_eq_true] at h1; exact h1.1
+    · rcases h2 with h2 | h2
+      · simp at h2
+      · exact h2
+  | cons g gs ih =>
+    obtain ⟨h1, h2, h3⟩ := h
+    exact ⟨h1, h2, ih _ h3⟩
+
+/-- If a text ending in a newline matches, the text without that newline matches too, with the same captures
+    (the newline can only have been matched by one of the `\s*`). -/
+theorem body_drop_newline (b : List Char) (toks : List Tok) (h : BodyMatch (b ++ ['\n']) toks) :
+    BodyMatch b toks := by
+  obtain ⟨gs, post, hcs, hc, htk⟩ := canon_of_body _ _ h
+  obtain ⟨hwf, hp⟩ := canonTail_wf 0 gs post hc.1
+  have hpost : post ≠ [] := by
+    intro he
+    subst he
+    rw [List.append_nil] at hcs
+    by_cases hgs : gs = []
+    · subst hgs; simp [strsG] at hcs
+    · have := (strsG_last_not_nl gs hwf hgs).1
+      rw [← hcs] at this
+      simp at this
+  obtain ⟨p, c, hpc⟩ : ∃ p c, post = p ++ [c] := by
+    rcases List.eq_nil_or_concat post with h | ⟨p, c, h⟩
+    · exact absurd h hpost
+    · exact ⟨p, c, by simpa using h⟩
+  subst hpc
+  rw [← List.append_assoc] at hcs
+  have hb : b = strsG gs ++ p := (List.append_inj' hcs rfl).1
+  subst hb; subst htk
+  exact body_of_canon gs p ⟨canonTail_dropLast 0 gs p c hc.1, hc.2⟩
+
+
+/-- Regular expressions over characters: the fragment `Timeindex`'s pattern uses. -/
+inductive Rx where
+  | cls (p : Char → Bool)
+  | eps
+  | seq (a b : Rx)
+  | star (a : Rx)
+  | opt (a : Rx)
+
+/-- The textbook matching relation. -/
+inductive Rx.Matches : Rx → List Char → Prop
+  | cls (p : Char → Bool) (c : Char) : p c = true → Matches (.cls p) [c]
+  | eps : Matches .eps []
+  | seq (a b : Rx) (x y : List Char) : Matches a x → Matches b y → Matches (.seq a b) (x ++ y)
+  | star_nil (a : Rx) : Matches (.star a) []
+  | star_cons (a : Rx) (x y : List Char) : Matches a x → Matches (.star a) y → Matches (.star a) (x ++ y)
+  | opt_none (a : Rx) : Matches (.opt a) []
+  | opt_some (a : Rx) (x : List Char) : Matches a x → Matches (.opt a) x
+
+/-- a literal string -/
+def Rx.lit : List Char → Rx
+  | [] => .eps
+  | c :: cs => .seq (.cls (· == c)) (Rx.lit cs)
+/-- `a+` -/
+def Rx.plus (a : Rx) : Rx := .seq a (.star a)
+
+/-- `\d` and `\s` restricted to ASCII -/
+def rxDigit : Rx := .cls isDigit
+def rxSpace : Rx := .cls isSpace
+/-- `\s*` -/
+def rxWs : Rx := .star rxSpace
+/-- `\d*\.?\d+` -/
+def rxNumber : Rx := .seq (.star rxDigit) (.seq (.opt (.cls (· == '.'))) (Rx.plus rxDigit))
+/-- `((?P<u>\d*\.?\d+)\s*u)?` -/
+def rxGroup (i : Nat) : Rx := .opt (.seq rxNumber (.seq rxWs (Rx.lit (unitChars i))))
+/-- `r"\s*".join(...)` -/
+def rxJoin : List Rx → Rx
+  | [] => .eps
+  | [r] => r
+  | r :: r' :: rs => .seq r (.seq rxWs (rxJoin (r' :: rs)))
+/-- the pattern between `^(?P<sign>-?)` and `$` -/
+def rxBody : Rx := rxJoin [rxGroup 0, rxGroup 1, rxGroup 2, rxGroup 3, rxGroup 4, rxGroup 5, rxGroup 6]
+/-- `(?P<sign>-?)` followed by the body -/
+def rxFull : Rx := .seq (.opt (.cls (· == '-'))) rxBody
+
+theorem seq_iff (a b : Rx) (z : List Char) :
+    (Rx.seq a b).Matches z ↔ ∃ x y, z = x ++ y ∧ a.Matches x ∧ b.Matches y := by
+  constructor
+  · intro h; cases h with | seq _ _ x y h1 h2 => exact ⟨x, y, rfl, h1, h2⟩
+  · rintro ⟨x, y, rfl, h1, h2⟩; exact .seq a b x y h1 h2
+
+theorem opt_iff (a : Rx) (z : List Char) : (Rx.opt a).Matches z ↔ z = [] ∨ a.Matches z := by
+  constructor
+  · intro h; cases h with
+    | opt_none => exact Or.inl rfl
+    | opt_some _ _ h => exact Or.inr h
+  · rintro (rfl | h)
+    · exact .opt_none a
+    · exact .opt_some a z h
+
+theorem cls_iff (p : Char → Bool) (z : List Char) : (Rx.cls p).Matches z ↔ ∃ c, z = [c] ∧ p c = true := by
+  constructor
+  · intro h; cases h with | cls _ c h => exact ⟨c, rfl, h⟩
+  · rintro ⟨c, rfl, h⟩; exact .cls p c h
+
+theorem eps_iff (z : List Char) : Rx.eps.Matches z ↔ z = [] := by
+  constructor
+  · intro h; cases h; rfl
+  · rintro rfl; exact .eps
+
+theorem star_cls_all (p : Char → Bool) (r : Rx) (z : List Char) (h : r.Matches z) (hr : r = .star (.cls p)) :
+    z.all p = true := by
+  induction h with
+  | star_nil => rfl
+  | star_cons a x y h1 _ _ ih2 =>
+    injection hr with hr; subst hr
+    obtain ⟨c, rfl, hc⟩ := (cls_iff p x).mp h1
+    simp [hc, ih2 rfl]
+  | _ => cases hr
+
+theorem star_cls_iff (p : Char → Bool) (z : List Char) : (Rx.star (.cls p)).Matches z ↔ z.all p = true := by
+  constructor
+  · intro h; exact star_cls_all p _ z h rfl
+  · intro h
+    induction z with
+    | nil => exact .star_nil _
+    | cons c cs ih =>
+      simp only [List.all_cons, Bool.and_eq_true] at h
+      exact .star_cons _ [c] cs (.cls p c h.1) (ih h.2)
+
+theorem plus_cls_iff (p : Char → Bool) (z : List Char) :
+    (Rx.plus (.cls p)).Matches z ↔ z.all p = true ∧ z ≠ [] := by
+  unfold Rx.plus
+  rw [seq_iff]
+  constructor
+  · rintro ⟨x, y, rfl, h1, h2⟩
+    obtain ⟨c, rfl, hc⟩ := (cls_iff p x).mp h1
+    exact ⟨by simp [hc, (star_cls_iff p y).mp h2], by simp⟩
+  · rintro ⟨h, hne⟩
+    cases z with
+    | nil => exact absurd rfl hne
+    | cons c cs =>
+      simp only [List.all_cons, Bool.and_eq_true] at h
+      exact ⟨[c], cs, rfl, .cls p c h.1, (star_cls_iff p cs).mpr h.2⟩
+
+theorem lit_iff (s z : List Char) : (Rx.lit s).Matches z ↔ z = s := by
+  induction s generalizing z with
+  | nil => exact eps_iff z
+  | cons c cs ih =>
+    simp only [Rx.lit]
+    rw [seq_iff]
+    constructor
+    · rintro ⟨x, y, rfl, h1, h2⟩
+      obtain ⟨c', rfl, hc⟩ := (cls_iff _ x).mp h1
+      have : c' = c := by simpa using hc
+      rw [this, (ih y).mp h2]; rfl
+    · rintro rfl
+      exact ⟨[c], cs, rfl, .cls _ c (by simp), (ih cs).mpr rfl⟩
+
+theorem number_iff (z : List Char) :
+    rxNumber.Matches z ↔ ∃ d1 dot d2, z = d1 ++ dotStr dot ++ d2 ∧ d1.all isDigit = true ∧
+      d2.all isDigit = true ∧ d2 ≠ [] := by
+  unfold rxNumber rxDigit
+  simp only [seq_iff, opt_iff, star_cls_iff, plus_cls_iff, cls_iff]
+  constructor
+  · rintro ⟨d1, y, rfl, h1, o, d2, rfl, ho, h2, hne⟩
+    rcases ho with rfl | ⟨c, rfl, hc⟩
+    · exact ⟨d1, false, d2, by simp [dotStr], h1, h2, hne⟩
+    · have : c = '.' := by simpa using hc
+      subst this
+      exact ⟨d1, true, d2, by simp [dotStr], h1, h2, hne⟩
+  · rintro ⟨d1, dot, d2, rfl, h1, h2, hne⟩
+    cases dot with
+    | false => exact ⟨d1, d2, by simp [dotStr], h1, [], d2, rfl, Or.inl rfl, h2, hne⟩
+    | true => exact ⟨d1, '.' :: d2, by simp [dotStr], h1, ['.'], d2, rfl, Or.inr ⟨'.', rfl, by simp⟩, h2, hne⟩
+
+theorem group_iff (i : Nat) (z : List Char) : (rxGroup i).Matches z ↔ z = [] ∨ ∃ tok, GroupMatch i z tok := by
+  unfold rxGroup rxWs rxSpace
+  rw [opt_iff]
+  apply or_congr Iff.rfl
+  simp only [seq_iff, number_iff, star_cls_iff, lit_iff]
+  constructor
+  · rintro ⟨x, y, rfl, ⟨d1, dot, d2, rfl, h1, h2, hne⟩, mid, u, rfl, hm, rfl⟩
+    have := GroupMatch.mk (i := i) d1 d2 mid dot h1 h2 hne hm
+    exact ⟨_, by simpa [List.append_assoc] using this⟩
+  · rintro ⟨tok, h⟩
+    cases h with
+    | mk d1 d2 mid dot h1 h2 hne hm =>
+      exact ⟨d1 ++ dotStr dot ++ d2, mid ++ unitChars i, by simp [List.append_assoc],
+        ⟨d1, dot, d2, rfl, h1, h2, hne⟩, mid, unitChars i, rfl, hm, rfl⟩
+
+
+theorem ws_iff (z : List Char) : rxWs.Matches z ↔ z.all isSpace = true := star_cls_iff isSpace z
+
+theorem tail7 (cs : List Char) (toks : List Tok) (h : TailMatch 7 cs toks) : cs = [] ∧ toks = [] := by
+  cases h with
+  | done => exact ⟨rfl, rfl⟩
+  | absent _ _ _ _ hi => omega
+  | present _ _ _ _ _ _ hi => omega
+
+theorem tail_base (cs : List Char) :
+    (Rx.seq rxWs (rxJoin [rxGroup 6])).Matches cs ↔ ∃ toks, TailMatch 6 cs toks := by
+  simp only [rxJoin, seq_iff, ws_iff, group_iff]
+  constructor
+  · rintro ⟨ws, g, rfl, hws, hg⟩
+    rcases hg with rfl | ⟨tok, hg⟩
+    · exact ⟨[], TailMatch.absent 6 ws [] [] (by omega) hws TailMatch.done⟩
+    · have := TailMatch.present 6 ws g [] tok [] (by omega) hws hg TailMatch.done
+      exact ⟨[tok], by simpa using this⟩
+  · rintro ⟨toks, h⟩
+    cases h with
+    | absent _ ws rest toks hi hws ht =>
+      obtain ⟨rfl, rfl⟩ := tail7 _ _ ht
+      exact ⟨ws, [], rfl, hws, Or.inl rfl⟩
+    | present _ ws g rest tok toks hi hws hg ht =>
+      obtain ⟨rfl, rfl⟩ := tail7 _ _ ht
+      exact ⟨ws, g, by simp, hws, Or.inr ⟨tok, hg⟩⟩
+
+theorem tail_step (i : Nat) (hi : i < 7) (r' : Rx) (rs : List Rx)
+    (ih : ∀ cs, (Rx.seq rxWs (rxJoin (r' :: rs))).Matches cs ↔ ∃ toks, TailMatch (i + 1) cs toks) (cs : List Char) :
+    (Rx.seq rxWs (rxJoin (rxGroup i :: r' :: rs))).Matches cs ↔ ∃ toks, TailMatch i cs toks := by
+  simp only [rxJoin]
+  rw [seq_iff]
+  constructor
+  · rintro ⟨ws, y, rfl, hws, hy⟩
+    obtain ⟨g, rest, rfl, hg, hrest⟩ := (seq_iff _ _ _).mp hy
+    obtain ⟨toks, ht⟩ := (ih rest).mp hrest
+    rcases (group_iff i g).mp hg with rfl | ⟨tok, hg⟩
+    · have := TailMatch.absent i ws rest toks hi ((ws_iff ws).mp hws) ht
+      exact ⟨toks, by simpa using this⟩
+    · have := TailMatch.present i ws g rest tok toks hi ((ws_iff ws).mp hws) hg ht
+      exact ⟨tok :: toks, by simpa [List.append_assoc] using this⟩
+  · rintro ⟨toks, h⟩
+    cases h with
+    | done => omega
+    | absent _ ws rest toks hi hws ht =>
+      exact ⟨ws, rest, rfl, (ws_iff ws).mpr hws, (seq_iff _ _ _).mpr
+        ⟨[], rest, rfl, (group_iff i []).mpr (Or.inl rfl), (ih rest).mpr ⟨toks, ht⟩⟩⟩
+    | present _ ws g rest tok toks hi hws hg ht =>
+      exact ⟨ws, g ++ rest, by simp [List.append_assoc], (ws_iff ws).mpr hws, (seq_iff _ _ _).mpr
+        ⟨g, rest, rfl, (group_iff i g).mpr (Or.inr ⟨tok, hg⟩), (ih rest).mpr ⟨_, ht⟩⟩⟩
+
+
+
+/-! ## deepening round D: small helpers of the property theorems -/
+
+theorem pairwise_head_le (l : List Sample) (h : l.Pairwise (fun x y => x.1 ≤ y.1)) (x y : Sample)
+    (hy : l.head? = some y) (hx : x ∈ l) : y.1 ≤ x.1 := by
+  cases l with
+  | nil => simp at hy
+  | cons z zs =>
+    simp only [List.head?_cons, Option.some.injEq] at hy
+    subst hy
+    rcases List.mem_cons.mp hx with hx | hx
+    · subst hx; exact Int.le_refl _
+    · exact (List.pairwise_cons.mp h).1 x hx
+
+theorem pairwise_le_last (l : List Sample) (h : l.Pairwise (fun x y => x.1 ≤ y.1)) (x y : Sample)
+    (hy : l.getLast? = some y) (hx : x ∈ l) : x.1 ≤ y.1 := by
+  induction l with
+  | nil => simp at hx
+  | cons z zs ih =>
+    cases zs with
+    | nil =>
+      simp at hy hx; subst hy; subst hx; exact Int.le_refl _
+    | cons w ws =>
+      have hp := List.pairwise_cons.mp h
+      have hy' : (w :: ws).getLast? = some y := by simpa [List.getLast?_cons_cons] using hy
+      rcases List.mem_cons.mp hx with hx | hx
+      · subst hx
+        exact hp.1 y (List.mem_of_getLast? hy')
+      · exact ih hp.2 hy' hx
+
+theorem pairwise_map_fst (ts : List Int) (h : ts.Pairwise (· ≤ ·)) :
+    (ts.map fun x => ((x, x) : Sample)).Pairwise (fun x y => x.1 ≤ y.1) := by
+  rw [List.pairwise_map]; exact h
+
+/-- An independent reading of "keeps exactly the masked samples": the samples at the positions `i` whose flag
+    `m[i]` is set, in increasing order of `i`. -/
+def maskSpec (l : List Sample) (m : List Bool) : List Sample :=
+  ((List.range l.length).filter (fun i => m.getD i false)).filterMap (fun i => l[i]?)
+
+theorem zipMask_eq (l : List Sample) (m : List Bool) (h : l.length = m.length) :
+    ((l.zip m).filterMap fun (s, k) => if k then some s else none) = maskSpec l m := by
+  induction l generalizing m with
+  | nil => simp [maskSpec]
+  | cons x xs ih =>
+    cases m with
+    | nil => simp at h
+    | cons k ks =>
+      have h' : xs.length = ks.length := by simpa using h
+      have ih' := ih ks h'
+      unfold maskSpec at ih' ⊢
+      simp only [List.zip_cons_cons, List.filterMap_cons, List.length_cons, List.range_succ_eq_map,
+        List.filter_cons, List.filter_map, List.filterMap_map]
+      have e1 : ((fun i => (k :: ks).getD i false) ∘ Nat.succ) = fun i => ks.getD i false := by
+        funext i; simp
+      have e2 : ((fun i => (x :: xs)[i]?) ∘ Nat.succ) = fun i => xs[i]? := by
+        funext i; simp
+      cases k
+      · simp [e1, e2, ih', Function.comp_def]
+      · simp [e1, e2, ih', Function.comp_def]
+
+theorem body_not_minus (body : List Char) (toks : List Tok) (h : BodyMatch body toks) (r : List Char) :
+    body ≠ '-' :: r := by
+  intro he
+  obtain ⟨gs, post, hcs, hc, _⟩ := canon_of_body body toks h
+  obtain ⟨hwf, hp⟩ := canonTail_wf 0 gs post hc.1
+  have := strsG_head gs post hwf hp '-' r (by rw [← hcs, he])
+  revert this; decide
+
+/-- positional value of a digit string, most significant digit first -/
+def decValue : List Char → Nat
+  | [] => 0
+  | c :: cs => digitVal c * 10 ^ cs.length + decValue cs
+
+theorem foldl_digits (ds : List Char) (acc : Nat) :
+    ds.foldl (fun acc c => acc * 10 + digitVal c) acc = acc * 10 ^ ds.length + decValue ds := by
+  induction ds generalizing acc with
+  | nil => simp [decValue]
+  | cons c cs ih =>
+    simp only [List.foldl_cons, ih, decValue, List.length_cons, Nat.pow_succ]
+    rw [Nat.add_mul, Nat.mul_assoc, Nat.mul_comm 10 (10 ^ cs.length), Nat.add_assoc]
+
+/-- First and last timestamp of a non-empty continuous channel: `start` and `stop - dt`. -/
+theorem samplesFrom_ends (dt : Int) (v : Int) (vs : List Int) (t0 : Int) :
+    (samplesFrom t0 dt (v :: vs)).head?.map (·.1) = some t0 ∧
+    (samplesFrom t0 dt (v :: vs)).getLast?.map (·.1) = some (t0 + vs.length * dt) := by
+  refine ⟨rfl, ?_⟩
+  induction vs generalizing t0 v with
+  | nil => simp [samplesFrom]
+  | cons w ws ih =>
+    have := ih w (t0 + dt)
+    simp only [samplesFrom] at this ⊢
+    rw [List.getLast?_cons_cons, this]
+    simp only [List.length_cons, Option.some.injEq]
+    rw [Int.natCast_add, Int.add_mul]; omega
+
+theorem ediv_bounds (x dt : Int) (hdt : 0 < dt) : (0 ≤ x → 0 ≤ x / dt ∧ x / dt ≤ x) ∧ (x < 0 → x ≤ x / dt ∧ x / dt < 0) := by
+  constructor
+  · intro hx
+    exact ⟨Int.ediv_nonneg hx (Int.le_of_lt hdt), Int.ediv_le_self _ hx⟩
+  · intro hx
+    constructor
+    · rw [Int.le_ediv_iff_mul_le hdt]
+      have := Int.mul_le_mul_of_nonpos_left (a := x) (b := dt) (c := 1) (by omega) (by omega)
+      omega
+    · exact Int.ediv_neg_of_neg_of_pos hx hdt
+
+
+theorem pySlice_length_le {α} (l : List α) (i j : Int) : (pySlice l i j).length ≤ l.length := by
+  unfold pySlice
+  simp only [List.length_drop, List.length_take]
+  omega
+
+
 end Verif.C01
